@@ -486,12 +486,13 @@ PROPS = {
         classify=lambda v, case: [w for w in [p.split()[0] + ("-" + p.split()[1] if p.split()[0] == "diff" else "") for p in (v[4:] if v.startswith("inv ") else v).split(" ;; ") if p.split()] if w.startswith("C19.") or w.startswith("diff") or w.startswith("C14.final-state[node-collection")],
         nontrivial=lambda line: True,
         rule="sort: (queues) candidate sets of 2..6 sibling queues with many ties (priority, fair share against own guaranteed/fair max, pending) presented to the real sortQueue in two random permutations, for fair/fifo x priority on/off; "
-             "(apps) 2..6 applications (ask priority, submission time, usage share) sorted twice by the real sortApplications (its input is a Go map); (asks) histories of inserts/removes on the real sortedRequests incl. extreme int32 priorities; "
+             "(apps) 2..6 applications (ask priority, submission time, usage share; 30% with a recovered allocation of a higher priority, which must not change the key) sorted twice by the real sortApplications (its input is a Go map); (asks) histories of inserts/removes on the real sortedRequests incl. extreme int32 priorities; "
              "(nodes) histories of <=35 operations on the real NodeCollection (add/remove node incl. nodes with a gpu capacity, allocate, allocations that EXHAUST one resource type exactly — native and foreign —, release, capacity, occupied, foreign allocations, in-place resize, reserve, "
              "policy switch fair/binpacking with default or integral resource weights incl. a zero weight and a gpu weight) with both iterators read after every operation; every line carries per node capacity, allocated, occupied and available, the policy and its weights: "
              "the MODEL computes the available resource and the score (exact fraction, a missing available entry = fully used) and the driver compares the available resource, the order of the implementation's fresh scores (ranks) with the model's scores (diff nodes-score) and the iterator order with the model's scores; "
              "(children) a REAL parent queue below a root with/without max and 0..1 intermediate queues (own max sparse/absent), 2..6 real children (own max sparse incl. explicit zeros, guaranteed, allocated, pending incl. nil/empty/zero/negative, priority with offset, "
-             "state Active/Draining/Stopped; priority through the real path: priority.policy default/fence and priority.offset from the edges of int32 incl. unparsable texts, leaf children with 0..3 real applications with 0..3 real asks each (ask priorities from the edges of int32, some asks removed again), "
+             "state Active/Draining/Stopped; priority through the real path: priority.policy default/fence and priority.offset from the edges of int32 incl. unparsable texts, leaf children with 0..3 real applications with 0..3 real asks each (ask priorities from the edges of int32, some asks removed again; in about a third of the cases applications also receive recovered / pre-placed allocations — arriving already bound to a node through RecoverAllocationAsk + AddAllocation as partition.UpdateAllocation does, before the asks or after the removals, "
+             "with a priority above, equal to or below the pending asks: allocated entries are not outstanding and must not count), "
              "or children that are parent queues of 1..2 such leaf queues; the MODEL computes GetCurrentPriority from policy, offset and the ask priorities, diff children-priority) built three times (children created in two different orders, and a subset of the siblings); Queue.sortQueues() is called through VerifSortedChildren twice per tree as configured (fair, priority from "
              "application.sort.priority) and for fair/fifo x priority on/off; the line carries the real own max of every queue on the chain, per child the real keys, its GetFairMaxResource and the rank of its share; the driver compares fair max and share rank with the model "
              "(fairMaxOf, exact fractions), the offered SET always and the ORDER for every pair the own-key comparator distinguishes (pairs inside a non-weak-order tie group go to the known class). "
@@ -619,7 +620,10 @@ PROPS = {
              "written with unit suffixes, white space, bad and overflowing quantities; maxapplications; 1-3 limit entries per queue with named and wildcard users and groups, mostly consistent with what "
              "was inherited, in a quarter of the documents consistent only with what the validator compares; child templates; properties; ACL strings incl. leading/trailing/double spaces and tabs; "
              "0-3 placement rules with chains of depth <= 3 over fixed/user/tag/provided/test/recovery/unknown/upper-case names, existing, missing, qualified, mis-cased and malformed values, filters; "
-             "node sort policy and weights). Each document is decoded (strict) and dumped for the model, validated by the real configs.LoadSchedulerConfigFromByteArray, re-validated under 4 (quick) / 8 "
+             "node sort policy and weights); about 15% of the documents (generator_distribution focus:ladder, ladder:*) are limit ladders: a chain of 3 or 4 queue levels with side leaves and entries for the "
+             "same named user / named group / user wildcard / group wildcard / named user or group below wildcard entries on most levels, the levels naming different, partly overlapping sets of resource "
+             "types (memory only / vcore only / both / gpu / pods), values drawn below, equal to and above what ALL the levels above hand down (union of the types, smallest value), so that a third of them "
+             "is rejected by a comparison across a level that does not name the type. Each document is decoded (strict) and dumped for the model, validated by the real configs.LoadSchedulerConfigFromByteArray, re-validated under 4 (quick) / 8 "
              "(thorough) re-orderings of every YAML mapping, and, if accepted, loaded with scheduler.NewClusterContext, two applications are placed with PartitionContext.AddApplication, and the document "
              "is loaded into a running context with ClusterContext.UpdateRMSchedulerConfig. non-trivial = the document decodes; distinct = distinct protocol lines",
         trusted=["YAML decoding (yaml.v3 with KnownFields) is glue: the model starts from the decoded SchedulerConfig, dumped with nil and empty kept apart",
@@ -706,7 +710,7 @@ PROPS = {
     ),
     "C16": dict(
         module="YkProps.C16",
-        leancheck=["YkModel.Reload", "YkModel.ReloadPlace", "YkProofs.Reload", "YkProofs.ReloadMark", "YkProofs.ReloadParts", "YkProofs.ReloadPlace", "YkProps.C16"],
+        leancheck=["YkModel.Reload", "YkModel.ReloadPlace", "YkProofs.Reload", "YkProofs.ReloadMark", "YkProofs.ReloadParts", "YkProofs.ReloadPlace", "YkProofs.ReloadFlip", "YkProps.C16"],
         runs=[dict(comp="reload", quick=6400, thorough=160000)],
         classify=cls_c16,
         nontrivial=lambda line: '"op":"reset"' not in line,
@@ -717,6 +721,9 @@ PROPS = {
              "(none = implicit provided; provided; user+provided; provided+fixed(<the dropped leaf>, create); provided(create); tag(namespace)+provided; tag(namespace)), then 2..4 submissions that end up at the draining leaf: naming it qualified / unqualified, through the tag, "
              "naming a missing queue / no queue / a parent so that NO rule places them and the fall-back to root.default inside the iteration of the last (recovery) rule decides; every app-add line records the answer (accepted into which queue / rejected with which text) and every dump the state of every queue and the rule list in force (read back from the rule DAOs), "
              "a liveness probe after 40% of the updates (a node with room for everything is registered, every live application gets one small ask, scheduling cycles run to quiescence, the line records which probe asks were allocated and, for the others, whether run gates / back-off / queue headroom / user headroom / node room stand in the way; asks and node are removed again), "
+             "a flip scenario (4% of the operations): a configured parent with one or two configured leaf children (an update adds root.team{batch[,adhoc]} first when there is none) gets applications into each child with probability 1/2 and is then turned into a LEAF by an update (no queues below it, parent flag not set; five rule lists: none, provided, provided(create), tag(namespace)+provided, user+provided(create)), "
+             "followed by 2..4 submissions that name an old child (qualified, through the tag), a new queue below an old child, or the new leaf: the old children must be Draining (model: the recursion of updateQueues into the queue with the empty child list marks them — diff reload.state / reload.walk, clause C16.M1) and refuse (diff reload.place, C16.D2; clause C16.D3 = the recorded answer put the application into a managed queue that is not Draining and that the configuration in force does not name). "
+             "The known classes C16.F1/F2 are only the two clauses about the flip itself (applications left in a queue that became a parent; child queues left below a queue that became a leaf, incl. the starved probe asks of exactly those applications): every other clause and every diff on the same or a later line is judged on its own, "
              "and configuration updates (25%) through the RM event path (checksum short-cut) or UpdateRMSchedulerConfig: 1..3 mutations of the configuration in force (add leaf / parent, drop a subtree, re-add a dropped subtree, leaf->parent, parent->leaf, "
              "resources, maxapplications, properties, child template, limits, partition settings and placement rules, add a partition), the identical text, a comment-only change, configurations the validator refuses (6 kinds), "
              "configurations the validator accepts and the loader refuses (template quantity, ACL text, top queue name, unknown rule) in the first or in the second partition, and (9% of the updates) updates rejected LATE: a rule list that passes the validator (rule names are only checked to be identifiers; "
